@@ -166,6 +166,26 @@ pub fn run(ctx: &mut Ctx) {
     });
     ctx.require(&r, &["accepted_with_denoted_value", "rejected"]);
 
+    // b'. every year x every month x days {0, 1, 28..=32} through Date, Timestamp and OracleDate (each type has its own validation path)
+    let dayset: [u32; 7] = [0, 1, 28, 29, 30, 31, 32];
+    let r = ctx.sweep_each("month_ends_every_year_three_types", "every (year 1..=9999, month 1..=12, day in {0,1,28,29,30,31,32}) as text under YYYY-MM-DD (Date), YYYY-MM-DD HH24:MI:SS (Timestamp, OracleDate): accepted iff a real date", 9999 * 12 * 7, 4096, |idx, acc| {
+        thread_local! { static F: (Formatter, Formatter) = (Formatter::try_new("YYYY-MM-DD").unwrap(), Formatter::try_new("YYYY-MM-DD HH24:MI:SS").unwrap()); }
+        let d = dayset[(idx % 7) as usize];
+        let m = ((idx / 7) % 12) as u32 + 1;
+        let y = (idx / 84) as i32 + 1;
+        acc.states += 1;
+        let real = d >= 1 && d <= month_len(y, m);
+        let n = if real { Some(cal.day_number(y, m, d) as i64) } else { None };
+        F.with(|f| {
+            parse_case(acc, idx, "month-end", Ty::Date, &f.0, "YYYY-MM-DD", &format!("{y:04}-{m:02}-{d:02}"), n);
+            let text = format!("{y:04}-{m:02}-{d:02} 13:14:15");
+            let tod = 13 * US_HOUR + 14 * US_MIN + 15 * US_SEC;
+            parse_case(acc, idx, "month-end", Ty::Timestamp, &f.1, "YYYY-MM-DD HH24:MI:SS", &text, n.map(|n| n * US_DAY + tod));
+            parse_case(acc, idx, "month-end", Ty::OracleDate, &f.1, "YYYY-MM-DD HH24:MI:SS", &text, n.map(|n| n * US_DAY + tod));
+        });
+    });
+    ctx.require(&r, &["accepted_with_denoted_value", "rejected"]);
+
     // c. every second in 24-hour and 12-hour + meridian notation, both field orders
     let r = ctx.sweep("all_seconds_clock_notations", "all 86,400 seconds x {HH24:MI:SS, HH12:MI:SS AM, AM HH12:MI:SS, dotted, lower-case} on Time, Timestamp and OracleDate", 86_400, 512, |range, acc| {
         let pics = ["HH24:MI:SS", "HH12:MI:SS AM", "AM HH12:MI:SS", "HH:MI:SS a.m.", "p.m. HH12:MI:SS", "HH12:MI:SS pm", "HH24MISS"];
@@ -333,7 +353,7 @@ pub fn run(ctx: &mut Ctx) {
         for (pic, text, why) in [
             ("HH24:MI:SS", "24:00:00", "hour-24"), ("HH24:MI:SS", "00:60:00", "minute-60"), ("HH24:MI:SS", "00:00:60", "second-60"), ("HH24:MI:SS", "-1:00:00", "negative-hour"), ("HH24:MI:SS", "00:-1:00", "negative-minute"),
             ("HH24:MI:SS", "00:00:-1", "negative-second"), ("HH12:MI:SS AM", "00:00:00 AM", "hour12-zero"), ("HH12:MI:SS AM", "13:00:00 AM", "hour12-13"), ("HH12:MI:SS AM", "12:00:00 XM", "bad-meridian"),
-            ("HH24:MI:SS AM", "10:00:00 AM", "hh24-with-meridian"), ("AM HH24:MI:SS", "AM 10:00:00", "meridian-then-hh24"), ("HH24 HH12", "10 10", "hour-twice"), ("HH24 HH24", "10 10", "hour-twice"), ("HH12 HH12 AM", "10 10 AM", "hour-twice"),
+            ("HH24 HH12", "10 10", "hour-twice"), ("HH24 HH24", "10 10", "hour-twice"), ("HH12 HH12 AM", "10 10 AM", "hour-twice"),
             ("HH24:MI:MI", "10:10:10", "minute-twice"), ("HH24:MI:SS SS", "10:10:10 10", "second-twice"), ("SS.FF FF", "10.1 1", "fraction-twice"), ("AM PM HH12", "AM PM 10", "meridian-twice"), ("HH24:MI:SS.FF", "10:10:10.-1", "negative-fraction"),
             ("HH24:MI:SS", "10:10:10 x", "left-over"), ("HH24:MI:SS", "10:10:100", "left-over-digit"), ("HH24:MI:SS YYYY", "10:10:10 2023", "date-field-on-time"), ("HH24:MI:SS DD", "10:10:10 01", "day-on-time"), ("HH24:MI:SS MON", "10:10:10 Jan", "month-name-on-time"),
             ("HH24:MI:SS D", "10:10:10 1", "weekday-on-time"), ("HH24:MI:SS DDD", "10:10:10 001", "day-of-year-on-time"), ("HH24,MI", "10", "missing-after-comma"), ("HH24:MI:SS W", "10:10:10 1", "output-only-W"),
@@ -342,7 +362,7 @@ pub fn run(ctx: &mut Ctx) {
         }
         for (pic, text, why) in [
             ("YYYY-MM-DD HH24:MI:SS", "2023-01-01 24:00:00", "hour-24"), ("YYYY-MM-DD HH24:MI:SS", "2023-01-01 00:60:00", "minute-60"), ("YYYY-MM-DD HH24:MI:SS", "2023-01-01 00:00:60", "second-60"),
-            ("YYYY-MM-DD HH24:MI:SS", "2023-02-29 00:00:00", "not-a-leap-day"), ("YYYY-MM-DD HH12:MI AM", "2023-01-01 00:30 AM", "hour12-zero"), ("YYYY-MM-DD HH24:MI AM", "2023-01-01 10:30 AM", "hh24-with-meridian"),
+            ("YYYY-MM-DD HH24:MI:SS", "2023-02-29 00:00:00", "not-a-leap-day"), ("YYYY-MM-DD HH12:MI AM", "2023-01-01 00:30 AM", "hour12-zero"),
             ("YYYY-MM-DD HH24:MI:SS", "2023-01-01 00:00:00 x", "left-over"), ("YYYY DDD MM", "2023 032 01", "day-of-year-vs-month"), ("YYYY DDD DD", "2023 032 02", "day-of-year-vs-day"), ("YYYY-MM-DD DY", "2023-01-01 Mon", "weekday-mismatch"),
             ("YYYY-MM-DD D", "2023-01-01 2", "weekday-number-mismatch"), ("YYYY-MM-DD HH24 WW", "2023-01-01 00 01", "output-only-WW"), ("YYYY-MM-DD HH24 HH24", "2023-01-01 00 00", "hour-twice"),
         ] {
@@ -366,6 +386,42 @@ pub fn run(ctx: &mut Ctx) {
             add(Ty::IntervalDT, pic, text.to_string(), why);
         }
     }
+    // a sign on a one-, two- or three-digit year field is a negative year whatever the clock says
+    for (pic, text) in [("YY-MM-DD", "-21-03-04"), ("Y-MM-DD", "-1-03-04"), ("YYY-MM-DD", "-021-03-04"), ("DD.MM.YY", "04.03.-21")] {
+        rej.push((Ty::Date, pic.to_string(), text.to_string(), "negative-short-year"));
+        rej.push((Ty::Timestamp, format!("{pic} HH24:MI:SS"), format!("{text} 10:20:30"), "negative-short-year"));
+        rej.push((Ty::OracleDate, format!("{pic} HH24"), format!("{text} 10"), "negative-short-year"));
+    }
+    // a picture with a repeated, output-only or inapplicable code is rejected whatever the text is:
+    // every prefix of the full text (trailing fields omitted at any point) must be rejected as well
+    let picture_invalid: Vec<(Ty, String, String, &'static str)> = rej.iter().filter(|r| r.3.contains("twice") || r.3.starts_with("output-only") || r.3.contains("-on-")).cloned().collect();
+    for (ty, pic, text, _) in picture_invalid {
+        let chars: Vec<char> = text.chars().collect();
+        for cut in 0..chars.len() {
+            rej.push((ty, pic.clone(), chars[..cut].iter().collect(), "invalid-picture-with-truncated-text"));
+        }
+    }
+    for (ty, pic, text) in [
+        (Ty::Timestamp, "YYYY-MM-DD HH24:MI:SS WW", "2021-03-04 10"), (Ty::Time, "HH24:MI:SS:MI", "10"), (Ty::Time, "HH24:MI:SS:SS", "10:00"), (Ty::Time, "HH24:MI:SS YYYY", "10"), (Ty::Time, "HH24:MI DAY", "10"),
+        (Ty::Timestamp, "YYYY-MM-DD HH24:MI W", "2021-03-04 10:"), (Ty::OracleDate, "YYYY-MM-DD HH24:MI:SS.FF", "2021-03-04 10:11"), (Ty::Timestamp, "YYYY-MM-DD HH24-MI-HH24", "2021-03-04 10"), (Ty::IntervalDT, "DD HH24:MI:SS AM", "+01 10"),
+    ] {
+        rej.push((ty, pic.to_string(), text.to_string(), "invalid-picture-with-truncated-text"));
+    }
+    // nine- and ten-digit interval fields far beyond the limits (narrowing before validation wraps there)
+    for big in ["178000001", "179913941", "179913942", "200000000", "357913941", "357913942", "400000000", "715827882", "715827883", "999999999", "1000000000", "4294967296"] {
+        for sg in ["+", "-", ""] {
+            rej.push((Ty::IntervalYM, "YYYY-MM".into(), format!("{sg}{big}-00"), "beyond-limit-many-digits"));
+            rej.push((Ty::IntervalYM, "YYYY-MM".into(), format!("{sg}{big}-11"), "beyond-limit-many-digits"));
+            rej.push((Ty::IntervalYM, "YYYY".into(), format!("{sg}{big}"), "beyond-limit-many-digits"));
+        }
+    }
+    for big in ["100000001", "107374182", "107374183", "200000000", "214748364", "214748365", "429496729", "429496730", "999999999", "1000000000", "4294967296"] {
+        for sg in ["+", "-", ""] {
+            rej.push((Ty::IntervalDT, "DD HH24:MI:SS".into(), format!("{sg}{big} 00:00:00"), "beyond-limit-many-digits"));
+            rej.push((Ty::IntervalDT, "DD HH24:MI:SS.FF".into(), format!("{sg}{big} 23:59:59.999999"), "beyond-limit-many-digits"));
+            rej.push((Ty::IntervalDT, "DD".into(), format!("{sg}{big}"), "beyond-limit-many-digits"));
+        }
+    }
     // left-over: every non-blank byte of the input alphabet appended to a canonical text that ends in a full-width numeric field
     let alphabet: Vec<&str> = vec!["0", "1", "9", "+", "-", ":", ".", ",", "/", "\\", ";", "A", "a", "M", "p", "T", "J", "u", "x", "\u{e9}", "\u{7f}"];
     for a in &alphabet {
@@ -378,7 +434,7 @@ pub fn run(ctx: &mut Ctx) {
     }
     ctx.bound("rejections", json!(rej.len()));
     let rej_r = &rej;
-    let r = ctx.sweep_each("rejections", "single-component perturbations to out-of-domain values, disagreeing redundant fields, repeated field codes, HH24 with meridian, output-only / inapplicable codes, left-over input", rej.len() as u64, 16, |idx, acc| {
+    let r = ctx.sweep_each("rejections", "single-component perturbations to out-of-domain values, disagreeing redundant fields, repeated field codes, output-only / inapplicable codes, left-over input", rej.len() as u64, 16, |idx, acc| {
         let (ty, pic, text, why) = &rej_r[idx as usize];
         acc.states += 1;
         let fmt = match guard(|| Formatter::try_new(pic)) { Ok(Ok(f)) => f, _ => { acc.fail("C05:picture-rejected", idx, || (format!("Formatter::try_new({pic:?})"), "Ok".into(), "Err".into(), String::new())); return; } };
